@@ -1,34 +1,63 @@
 #!/venv/bin/python
-"""Run every seeded change against the checks of its property (quick tier) and record who detects it.
-usage: matrix.py [name-filter]"""
-import json, os, subprocess, sys, glob
-ROOT="/verif"
-flt = sys.argv[1] if len(sys.argv) > 1 else ""
-CHECKS = {"C02":["C02"],"C03":["C03"],"C04":["C04","C05"],"C05":["C05","C04"],"C06":["C06"],"C07":["C07"]}
-def sh(cmd): return subprocess.run(cmd, shell=True, capture_output=True, text=True)
-assert not sh("git -C /repo status --short | grep -v '^??'").stdout.strip(), "/repo dirty"
-rows=[]
-for d in sorted(glob.glob(f"{ROOT}/seeded/*")):
-    name=os.path.basename(d)
-    if flt and flt not in name: continue
-    meta_p=f"{d}/meta.json"
-    meta=json.load(open(meta_p)) if os.path.exists(meta_p) else {}
-    prop=meta.get("property") or meta.get("breaks")
-    if not prop: print("no property for", name); continue
-    if sh(f"git -C /repo apply --check {d}/patch.diff").returncode:
-        print(name, "patch does not apply to the current tree"); meta["applies_to_current_tree"]=False
-        json.dump(meta,open(meta_p,"w"),indent=1); continue
-    sh(f"git -C /repo apply {d}/patch.diff")
-    det={}
-    try:
-        for c in CHECKS[prop] + [c for c in meta.get("also_check", []) if c not in CHECKS[prop]]:
-            r=sh(f"cd {ROOT} && ./check {c}")
-            lines=[l for l in r.stdout.splitlines() if l.strip().startswith("oracle=")]
-            det[c]={"exit":r.returncode,"violations":sorted(set(l.strip() for l in lines))[:6]}
-    finally:
-        sh("git -C /repo checkout -- .")
-    meta["detected_by"]={c:v for c,v in det.items()}
-    meta["applies_to_current_tree"]=True
-    json.dump(meta,open(meta_p,"w"),indent=1)
-    rows.append((name,prop,{c:(v["exit"],len(v["violations"])) for c,v in det.items()}))
-    print(name, prop, {c:(v["exit"],len(v["violations"])) for c,v in det.items()}, flush=True)
+"""Run every seeded change against the checks of its property (quick tier) and record who
+detects it.  Each change is applied to a scratch copy of /repo's HEAD and checked by a scratch
+copy of /verif (tools/scratch_run.sh): /repo itself is never touched.
+usage: matrix.py [name-filter] [--jobs N]"""
+import glob
+import json
+import os
+import subprocess
+import sys
+from concurrent.futures import ThreadPoolExecutor
+
+ROOT = "/verif"
+args = [a for a in sys.argv[1:] if not a.startswith("--")]
+flt = args[0] if args else ""
+jobs = 1
+for a in sys.argv[1:]:
+    if a.startswith("--jobs"):
+        jobs = int(a.split("=")[1])
+CHECKS = {"C02": ["C02"], "C03": ["C03"], "C04": ["C04", "C05"], "C05": ["C05", "C04"],
+          "C06": ["C06"], "C07": ["C07"]}
+
+
+def sh(cmd):
+    return subprocess.run(cmd, shell=True, capture_output=True, text=True)
+
+
+def one(d):
+    name = os.path.basename(d)
+    meta_p = f"{d}/meta.json"
+    meta = json.load(open(meta_p)) if os.path.exists(meta_p) else {}
+    prop = meta.get("property") or meta.get("breaks")
+    if not prop:
+        return name, "no property"
+    checks = CHECKS[prop] + [c for c in meta.get("also_check", []) if c not in CHECKS[prop]]
+    script = "; ".join(f"echo @@@@ {c}; ./check {c}; echo @@@@ exit=$?" for c in checks)
+    r = sh(f"{ROOT}/tools/scratch_run.sh {d}/patch.diff sh -c '{script}'")
+    if "patch does not apply" in r.stdout + r.stderr:
+        meta["applies_to_current_tree"] = False
+        json.dump(meta, open(meta_p, "w"), indent=1)
+        return name, "patch does not apply to the current tree"
+    det = {}
+    cur = None
+    for ln in r.stdout.splitlines():
+        if ln.startswith("@@@@ exit="):
+            det[cur]["exit"] = int(ln.split("=")[1])
+        elif ln.startswith("@@@@ "):
+            cur = ln[5:].strip()
+            det[cur] = {"exit": None, "violations": set()}
+        elif cur and ln.strip().startswith("oracle="):
+            det[cur]["violations"].add(ln.strip())
+    for c in det:
+        det[c]["violations"] = sorted(det[c]["violations"])[:8]
+    meta["detected_by"] = det
+    meta["applies_to_current_tree"] = True
+    json.dump(meta, open(meta_p, "w"), indent=1)
+    return name, f"{prop} " + str({c: (v["exit"], len(v["violations"])) for c, v in det.items()})
+
+
+dirs = [d for d in sorted(glob.glob(f"{ROOT}/seeded/*")) if not flt or flt in os.path.basename(d)]
+with ThreadPoolExecutor(max_workers=jobs) as pool:
+    for name, res in pool.map(one, dirs):
+        print(name, res, flush=True)
